@@ -6,7 +6,7 @@ import collections
 import copy
 import os.path
 
-from sa.fold import Lifted, Obj
+from sa.fold import Lifted, Obj, lift_module_helpers
 
 _GR = collections.namedtuple("GRange", ["chr", "start", "end"])
 
@@ -32,12 +32,25 @@ class ProfileModel:
                  "os.path.splitext": os.path.splitext, "open": lambda q, *a: Obj(path=q),
                  "yaml.safe_load": lambda f: copy.deepcopy(self.files[f.path]), "script_path": lambda q: q,
                  "chr_prefix": lambda c, names: ""}
-        self.init = Lifted(repo.func("profile::Profile.__init__"), funcs)
-        self.update = Lifted(repo.func("profile::Profile.update"), funcs)
-        self.write = Lifted(repo.func("profile::Profile.get_sam_profile_data"), funcs)
+        funcs["os.path.abspath"] = lambda q: "/abs/" + str(q)
+        env = {}
+        self.state = {}
+        lift_module_helpers(repo.mod("profile").tree, funcs, None, env, self.state)
+        self.init = Lifted(repo.func("profile::Profile.__init__"), funcs, env=env)
+        self.update = Lifted(repo.func("profile::Profile.update"), funcs, env=env)
+        self.write = Lifted(repo.func("profile::Profile.get_sam_profile_data"), funcs, env=env)
         funcs["Profile.get_sam_profile_data"] = self.write
-        self.load = Lifted(repo.func("profile::Profile.load"), funcs)
+        self.load = Lifted(repo.func("profile::Profile.load"), funcs, env=env)
         funcs["Profile.load"] = self.load
+
+    def reset_state(self):
+        """Forget module-level tables and memo tables: what follows stands for a new process."""
+        for k, v in self.state.items():
+            if k == "globals":
+                for o in v.values():
+                    o.clear()
+            else:
+                v.clear()
 
     def new(self, *a, **kw):
         me = self.P()
